@@ -27,6 +27,45 @@ CLAIMED = {
         note="Trusted: tokio Sleep fires at its deadline; virtual time is scaled (unit-free arithmetic)."),
 }
 
+RIB_NOTE = ("Trusted: TLC; the projection in harness/lib/src/bin/rib_replay.rs (public Table API only); the attribute-class table "
+            "checks/riblib.py from which both the model's decision key and the concrete attributes are generated. Conformance of the "
+            "larger configurations is sampled (random model walks), of the small ones exhaustive (edge cover).")
+CLAIMED.update({
+    "C02": dict(
+        category="model_checking", design_ref="DESIGN.md 5 (C06/C15/C02)",
+        technique="TLA+ spec Rib.tla (decision order as a lexicographic key, strict-weak-order and maximality invariants) exhausted by "
+                  "TLC + model behaviours replayed on the real table::Table with rank / best / ECMP / eligibility monitors",
+        text="TLC proves on every reachable state of the bounded model that the stated order is a strict weak order, that the "
+             "reported best is maximal among eligible paths and that ranking depends only on the path set; every replayed step "
+             "checks the real ranking is sorted under that key, its head is one of the model's maximal paths, ECMP equals the "
+             "model's tie set and ineligible paths are absent.",
+        note=RIB_NOTE),
+    "C06": dict(
+        category="model_checking", design_ref="DESIGN.md 5 (C06/C15/C02)",
+        technique="TLA+ spec Rib.tla (notifications + the two documented consumers folded into view variables, ViewsMatch/IdsOK "
+                  "invariants) exhausted by TLC + replay on the real Table folding the real NlriChange stream",
+        text="TLC proves the fold invariant for the notification rule of the model; on the real table every replayed behaviour "
+             "folds the real notifications with the documented skip rules and compares both consumers with the real Loc-RIB after "
+             "every step, checks destination-id uniqueness/stability and that the end of a deferral announces every held prefix.",
+        note=RIB_NOTE),
+    "C15": dict(
+        category="model_checking", design_ref="DESIGN.md 5 (C06/C15/C02)",
+        technique="TLA+ spec Rib.tla (incrementally maintained counters vs recount, CountersOK/TotalsOK invariants) exhausted by TLC "
+                  "+ replay on the real Table with a recount after every step",
+        text="TLC proves the incremental counter rules equal a recount in every reachable state of the bounded model (several "
+             "sessions of one peer, add-path, filtered paths, limits from 0); every replayed step recounts the real table and "
+             "compares peer stats, the per-session limit counter and the table totals.",
+        note=RIB_NOTE),
+    "C11": dict(
+        category="model_checking", design_ref="DESIGN.md 5 (C11)",
+        technique="TLA+ spec Deferral.tla (machine + driver glue + held/announced prefixes) exhausted by TLC + replay of every machine "
+                  "transition on the real RestartingDeferral + Rib.tla deferral behaviours replayed on the real Table",
+        text="The deferral machine is finite: TLC visits its complete graph and every transition is replayed on the real machine "
+             "(complete projection), so the machine-level claims hold for all event sequences over 3 peers x 2-3 families; the table "
+             "half (nothing announced while deferring, everything once at the end) is model-checked in Rib.tla and replayed.",
+        note="Trusted: TLC, the projection in harness/daemon/gr.rs; the table half is sampled conformance (see C06)."),
+})
+
 NOT_YET = {}
 
 HOOK_COMMITS = []
